@@ -87,6 +87,21 @@ def run(chk: core.Check, tier: str, seed: int) -> None:
                     except core.Unrepresentable:
                         pass
                 recs.append(impl.rec_total(jp, q, doc))
+    # comparisons and function calls on DEEP data, without any descendant segment (the library's own limit is not
+    # involved): values as deep as a JSON decoder produces them
+    def _deep(n, leaf, kind):
+        d = leaf
+        for i in range(n):
+            d = [d] if (kind == "arr" or (kind == "mix" and i % 2)) else {"a": d}
+        return d
+
+    for n in (400, 600, 900):
+        for kind in ("arr", "obj", "mix"):
+            doc = [{"a": _deep(n, 1, kind), "b": _deep(n, 1, kind), "c": _deep(n, 2, kind), "d": _deep(n, 1.0, kind)}, {"a": _deep(n, 1, kind)}]
+            for q in ("$[?@.a == @.b]", "$[?@.a != @.c]", "$[?@.a == @.d]", "$[?value(@.a) == value(@.b)]", "$[?length(@.a) >= 1]", "$[?count(@.*) > 1]",
+                      "$[?@.a <= @.b]", "$[?@.a == $[1].a]", "$[?match(@.a, 'a')]", "$[?value(@.a) != 1]", "$[0].a", "$[?@.a]", "$[0]['a', 'b']"):
+                recs.append(impl.rec_total(jp, q, doc))
+            del doc
     # the nondeterministic mode is total as well
     from .. import probes  # noqa: PLC0415
     nd = probes.make_env(jp, [], [], nondeterministic=True)
